@@ -150,6 +150,7 @@ func init() {
 	registerPlanCheck("C33", "exploration", planRule("all"), 50*time.Second, 12*time.Minute, realStub)
 	registerPlanCheck("C34", "translation_validation", planRule("all"), 50*time.Second, 12*time.Minute, realStub)
 	registerPlanCheck("C31", "exploration", planRule("all"), 50*time.Second, 12*time.Minute, realStub)
+	registerPlanCheck("C28", "exploration", planRule("all (host faults F1/F2 in 60 % of the shadow executions)"), 50*time.Second, 12*time.Minute, realStub)
 }
 
 // familyOf: the op family whose presence makes a plan non-trivial for the property
